@@ -170,11 +170,6 @@ func classify(v1 string, kind string, v2 string) string {
 		if hasEmptyBodyExtObj(toks) {
 			return "C03.extobj-empty-body"
 		}
-		for _, m := range variants(toks) {
-			if m[0]&0xc0 == 0x40 && m[0]&0x3f != 0 {
-				return "C03.variant-scalar-dims-bit"
-			}
-		}
 	}
 	return ""
 }
